@@ -110,6 +110,24 @@ def family(tier, rnd):
              methods=[func("m", ["A"], [ret(var("A"))], [catch("@exc", [mark("m-handler"), ret(num(-1))])])])
     add("arity-method-with-handler", prog([decl("O", new("MH", num(1))), mark("a"), disp(mcall(var("O"), "m")), mark("dead")], classes=[MH]))
     add("arity-ctor-with-handler", prog([mark("a"), decl("O", new("MH")), mark("dead")], classes=[MH]))
+    # a chain feeds each RESULT to the next call - also when a call yields another object than the one it was made on
+    BOX = cls("Box", [("v", num(0))], ctor=func("Box", ["A"], [ex(asg(this("v"), var("A")))]),
+              methods=[func("dbl", [], [ret(new("Box", bin_("mul", this("v"), num(2))))]), func("inc", ["K"], [ret(new("Box", bin_("add", this("v"), var("K"))))]),
+                       func("get", [], [ret(this("v"))]), func("me", [], [ret(this("@self"))])])
+    FAC = cls("Fac", [("made", num(0))], methods=[func("make", ["N"], [ex(asg(this("made"), bin_("add", this("made"), num(1)))), ret(new("Box", var("N")))]), func("get", [], [ret(num(-1))])])
+    add("chain-result-is-another-object", prog([decl("F", new("Fac")), disp(chain(var("F"), ("make", [num(21)]), ("dbl", []), ("get", []))), disp(mem(var("F"), "made")),
+                                                disp(chain(var("F"), ("make", [num(1)]), ("inc", [num(5)]), ("dbl", []), ("me", []), ("get", []))), disp(mem(var("F"), "made")), ex(num(0))], classes=[BOX, FAC]))
+    add("chain-stmt-result-is-another-object", prog([decl("F", new("Fac")), decl("B", chain(var("F"), ("make", [num(4)]), ("dbl", []))), disp(mcall(var("B"), "get"), mem(var("F"), "made")), ex(num(0))], classes=[BOX, FAC]))
+    # 得到 on a method call binds a NEW name in the caller's block, also when an outer activation (recursion) has one of the same name
+    TREE = cls("Tree", [("calls", num(0))],
+               methods=[func("cnt", ["N"], [ex(asg(this("calls"), bin_("add", this("calls"), num(1)))), if_([bin_("le", var("N"), num(0))], [[ret(num(1))]]),
+                                           ex(mcall(this("@self"), "cnt", bin_("sub", var("N"), num(1)), y="L")), ex(mcall(this("@self"), "cnt", bin_("sub", var("N"), num(2)), y="R")),
+                                           ret(bin_("add", bin_("add", var("L"), var("R")), num(1)))]),
+                        func("one", [], [ret(num(1))])])
+    for n_ in (1, 3, 5):
+        add("method-yield-tree-recursion-%d" % n_, prog([decl("T", new("Tree")), disp(mcall(var("T"), "cnt", num(n_))), disp(mem(var("T"), "calls")), ex(num(0))], classes=[TREE]))
+    add("method-yield-binds-const", prog([decl("T", new("Tree")), ex(mcall(var("T"), "one", y="R")), disp(var("R")), ex(asg(var("R"), num(5))), mark("dead")], classes=[TREE]))
+    add("method-yield-shadows-outer", prog([decl("T", new("Tree")), decl("R", num(9)), if_([b(True)], [[ex(mcall(var("T"), "one", y="R")), disp(var("R"))]]), disp(var("R")), ex(num(0))], classes=[TREE]))
     # random call graphs
     n = 1500 if tier == "quick" else 20000
     for i in range(n):
